@@ -1,4 +1,5 @@
 import Tw.Proofs.NetSim
+import Mathlib.Data.List.Perm.Subperm
 
 /-! `Net::needs_tick` is the minimum of the peers' deadlines; consequences of the simulation used by
 `Props/C20`. -/
@@ -154,5 +155,105 @@ theorem lookup_none_of_slot_emptied {ps ps' : Peers} {a pid : Nat} {p : Peer} (h
     have h3 := (slot_mem hs).1
     have := pid_inj hi.pid h2 h3 (by simpa using hep)
     exact hb (by rw [this]; exact (slot_mem hs).2)
+
+/-! ### the id allocator terminates -/
+
+theorem idMod_eq : idMod = 4294967296 := by decide
+
+def idIter : Nat → Nat → Nat
+  | 0, n => n
+  | k + 1, n => idIter k (idNext n)
+
+theorem idIter_eq (k n : Nat) (hn : n < idMod) : idIter k n = (n + k) % idMod := by
+  induction k generalizing n with
+  | zero => simp [idIter, Nat.mod_eq_of_lt hn]
+  | succ k ih =>
+    have hlt : idNext n < idMod := Nat.mod_lt _ (by rw [idMod_eq]; omega)
+    rw [idIter, ih _ hlt]
+    simp only [idNext, Tw.Gen.Net.peerIdStep, idMod_eq]
+    omega
+
+theorem newPeerLoop_none {fuel : Nat} {ps : Peers} {n : Nat} (h : newPeerLoop fuel ps n = none) :
+    ∀ k, k < fuel → lookup ps (idIter k n) ≠ none := by
+  induction fuel generalizing n with
+  | zero => intro k hk; omega
+  | succ f ih =>
+    simp only [newPeerLoop] at h
+    split at h
+    · rename_i p hl
+      intro k hk
+      cases k with
+      | zero => simp [idIter, hl]
+      | succ k => simpa [idIter] using ih h k (by omega)
+    · simp at h
+
+/-- the loop of `Peers::new_peer` finds a free id as long as fewer than 2^32 peers are live -/
+theorem newPeerLoop_some (ps : Peers) (n : Nat) (hn : n < idMod) (hlen : ps.length < idMod) :
+    newPeerLoop (ps.length + 1) ps n ≠ none := by
+  intro h
+  have hall := newPeerLoop_none h
+  let cands := (List.range (ps.length + 1)).map (fun k => idIter k n)
+  have hnd : cands.Nodup := by
+    apply List.Nodup.map_on _ (List.nodup_range)
+    intro x hx y hy hxy
+    simp only [List.mem_range] at hx hy
+    rw [idIter_eq _ _ hn, idIter_eq _ _ hn] at hxy
+    rw [idMod_eq] at hxy hn hlen
+    omega
+  have hsub : cands ⊆ pids ps := by
+    intro c hc
+    obtain ⟨k, hk, rfl⟩ := List.mem_map.1 hc
+    have := hall k (List.mem_range.1 hk)
+    cases hl : lookup ps (idIter k n) with
+    | none => exact absurd hl this
+    | some p => exact List.mem_map.2 ⟨_, lookup_mem hl, rfl⟩
+  have := (List.subperm_of_subset hnd hsub).length_le
+  simp [cands, pids] at this
+  omega
+
+
+theorem newPeer_ok_of_room (net : Net) (addr : Nat) (tok : Bool) (hn : net.nextPeerId < idMod)
+    (hlen : net.peers.length < idMod) : ∃ net1 pid, newPeer net addr tok = .ok (net1, pid) := by
+  unfold newPeer
+  cases h : newPeerLoop (net.peers.length + 1) net.peers net.nextPeerId with
+  | none => exact absurd h (newPeerLoop_some _ _ hn hlen)
+  | some v => obtain ⟨pid, nx⟩ := v; exact ⟨_, _, rfl⟩
+
+theorem newPeerLoop_next_lt {fuel : Nat} {ps : Peers} {n pid nx : Nat}
+    (h : newPeerLoop fuel ps n = some (pid, nx)) : nx < idMod := by
+  induction fuel generalizing n with
+  | zero => simp [newPeerLoop] at h
+  | succ f ih =>
+    simp only [newPeerLoop] at h
+    split at h
+    · exact ih h
+    · simp at h; rw [← h.2]; exact Nat.mod_lt _ (by rw [idMod_eq]; omega)
+
+/-! ### a concrete history (non-vacuity of the hypotheses; the D22 history) -/
+
+/-- the client's connect request, read the same under every token hint -/
+def connectReq (tok : Bool) : Option Bool → Option Conn6.Packet := fun _ => some (connectPacket tok)
+
+/-- connect request from 1 (with token), its retransmission, accept, connect request from 2
+(vanilla), connect out to 3, half a second later a tick, reject 2's peer, disconnect 1's peer -/
+def exampleHistory : History := [
+  ({ now := 0 }, .feed 1 (connectReq true)),
+  ({ now := 0 }, .feed 1 (connectReq true)),
+  ({ now := 0, draws := [0x01020304] }, .accept 0),
+  ({ now := 0 }, .feed 2 (connectReq false)),
+  ({ now := 0 }, .connect 3),
+  ({ now := 600000 }, .tick),
+  ({ now := 600000 }, .reject 1 []),
+  ({ now := 600000 }, .disconnect 0 [98])]
+
+/-- ids and addresses of the peers a run ends with -/
+def finalPeers : Except Fail (Net × List (Ret × Out)) → Option (List Nat × List Nat)
+  | .ok (n, _) => some (pids n.peers, addrs n.peers)
+  | .error _ => none
+
+/-- `step` with `Net::feed` as it was before the repair of D22 -/
+def legacyStep (env : Env) (net : Net) : Op → Res
+  | .feed a rd => feedLegacy env net a rd
+  | op => step env net op
 
 end Tw.Net
